@@ -369,6 +369,11 @@ impl Database {
 
                 let value = cursor.value()?;
 
+                if crate::database::dml::mvcc_helpers::is_tombstone(value) {
+                    cursor.advance()?;
+                    continue;
+                }
+
                 let user_data = get_user_data(value);
                 let record = RecordView::new(user_data, &schema)?;
                 let row_values = OwnedValue::extract_row_from_record(&record, &columns)?;
